@@ -1,7 +1,9 @@
 package monitors
 
 import (
+	"context"
 	"crypto/tls"
+	"log/slog"
 	"encoding/binary"
 	"fmt"
 	"math/rand/v2"
@@ -19,6 +21,7 @@ import (
 
 	"example.com/scion-time/net/csptp"
 	"example.com/scion-time/net/ntske"
+	"example.com/scion-time/net/udp"
 
 	"verif/harness/internal/ev"
 	"verif/harness/internal/peer"
@@ -790,6 +793,8 @@ func init() {
 				sentinel: func(e *c08Env) bool { return c08CSPTPSentinel(e, 319) }},
 			{loop: "server.runCSPTPServerIP", name: "csptp-listener(general port)", kinds: "csptp", inputs: c08CSPTPInputs, send: udpTo(srvIP, 320),
 				sentinel: func(e *c08Env) bool { return c08CSPTPSentinel(e, 320) }},
+			{loop: "server.runNTSKEServerQUIC", name: "ntske-quic-server(SCION)", kinds: "ntskequic", inputs: c08SCIONInputs(14460), send: udpTo(srvIP, 14460),
+				sentinel: func(e *c08Env) bool { return c08QUICSentinel(e) }},
 			{loop: "server.runNTSKEServerTLS", name: "ntske-tls-server", kinds: "ntske", inputs: c08NTSKEInputs, send: c08SendTLS("ntske/1"),
 				sentinel: func(e *c08Env) bool { c08TLSWG.Wait(); d, err := fetchNTS(e.srv); return err == nil && len(d.Cookie) == 8 }},
 		}
@@ -886,4 +891,31 @@ func c08CSPTPSentinel(e *c08Env, port uint16) bool {
 		return false
 	}
 	return e.tgt.WaitLog(fmt.Sprintf("from=%s seq=%d", e.uc.Local().String(), seq), 5*time.Second)
+}
+
+// c08QUICSentinel performs a complete NTS key exchange over QUIC/SCION (same ISD-AS, empty path).
+func c08QUICSentinel(e *c08Env) bool {
+	f := ntske.Fetcher{Log: slog.New(slog.DiscardHandler)}
+	f.TLSConfig = tls.Config{InsecureSkipVerify: true, ServerName: e.srv.String(), MinVersion: tls.VersionTLS13, NextProtos: []string{"ntske/1"}}
+	f.QUIC.Enabled = true
+	f.QUIC.LocalAddr = udp.UDPAddr{IA: c08LIA, Host: &net.UDPAddr{IP: e.cli.AsSlice()}}
+	f.QUIC.RemoteAddr = udp.UDPAddr{IA: c08LIA, Host: &net.UDPAddr{IP: e.srv.AsSlice(), Port: ntske.ServerPortSCION}}
+	done := make(chan bool, 1)
+	go func() {
+		defer func() {
+			if recover() != nil {
+				done <- false
+			}
+		}()
+		ctx, cancel := context.WithTimeout(context.Background(), 5*time.Second)
+		defer cancel()
+		d, err := f.FetchData(ctx)
+		done <- err == nil && len(d.Cookie) == 8
+	}()
+	select {
+	case ok := <-done:
+		return ok
+	case <-time.After(8 * time.Second):
+		return false
+	}
 }
